@@ -214,8 +214,9 @@ PRIM = {-1: "null", -2: "bool", -3: "nat", -4: "int", -5: "nat8", -6: "nat16", -
 FIXED = {"nat8": 1, "nat16": 2, "nat32": 4, "nat64": 8, "int8": 1, "int16": 2, "int32": 4, "int64": 8, "float32": 4, "float64": 8}
 
 
-def spec_decode(msg):
-    """returns (types, values) of a Candid message; raises SpecDecodeError if it is not well formed per the spec"""
+def spec_decode(msg, want_types=True):
+    """returns (types, values) of a Candid message; raises SpecDecodeError if it is not well formed per the spec
+    (want_types=False: types are not unrolled -- needed for recursive type tables -- and None is returned for them)"""
     r = _Rd(msg)
     if r.take(4) != b"DIDL":
         raise SpecDecodeError("magic")
@@ -301,7 +302,7 @@ def spec_decode(msg):
     vals = [val(a) for a in args]
     if r.p != len(msg):
         raise SpecDecodeError("trailing bytes")
-    return [ty(a) for a in args], vals
+    return ([ty(a) for a in args] if want_types else None), vals
 
 
 def encoder_corpus(pid):
